@@ -171,7 +171,7 @@ func (ex *Exec) tr(e *SExpr, env *Env) *Val {
 			return &Val{T: "(str.substr " + x.T + " " + lo + " (- " + hi + " " + lo + "))", S: SString}
 		}
 		if x.S.K == KSeq {
-			return &Val{T: "(seq.extract " + x.T + " " + lo + " (- " + hi + " " + lo + "))", S: x.S}
+			return &Val{T: sqExt(x.T, lo, "(- "+hi+" "+lo+")", x.S.Elem), S: x.S}
 		}
 		panic(specErr{fmt.Sprintf("slice on %s", x.S)})
 	case "unop":
@@ -268,6 +268,9 @@ func (ex *Exec) trBin(e *SExpr, env *Env) *Val {
 			panic(specErr{fmt.Sprintf("comparison of %s with %s in %s", a.S, b.S, e)})
 		}
 		t := eq(a.T, b.T)
+		if a.S.K == KSeq && a.T != b.T {
+			t = sqEq(a.T, b.T, a.S.Elem) // extensional equality of axiomatised sequences
+		}
 		if op == "!=" {
 			t = not(t)
 		}
@@ -295,7 +298,7 @@ func (ex *Exec) trBin(e *SExpr, env *Env) *Val {
 		if a.S.K == KString {
 			return &Val{T: "(str.++ " + a.T + " " + b.T + ")", S: SString}
 		}
-		return &Val{T: "(seq.++ " + a.T + " " + b.T + ")", S: a.S}
+		return &Val{T: sqApp(a.T, b.T, a.S.Elem), S: a.S}
 	case "-", "*":
 		return &Val{T: "(" + op + " " + a.T + " " + b.T + ")", S: a.S}
 	case "/":
@@ -333,7 +336,7 @@ func (ex *Exec) trCall(e *SExpr, env *Env) *Val {
 		if x.S.K == KInt && false {
 			return nil
 		}
-		return &Val{T: "(seq.unit " + x.T + ")", S: SSeq(x.S)}
+		return &Val{T: sqUnit(x.T, x.S), S: SSeq(x.S)}
 	case "emptyOf":
 		x := arg(0)
 		return &Val{T: w.Zero(x.S), S: x.S}
@@ -342,7 +345,7 @@ func (ex *Exec) trCall(e *SExpr, env *Env) *Val {
 		if a.S.K == KString {
 			return &Val{T: "(str.contains " + a.T + " " + b.T + ")", S: SBool}
 		}
-		return &Val{T: "(seq.contains " + a.T + " (seq.unit " + b.T + "))", S: SBool}
+		return &Val{T: sqHas(a.T, b.T, a.S.Elem), S: SBool}
 	case "hasPrefix":
 		return &Val{T: "(str.prefixof " + arg(1).T + " " + arg(0).T + ")", S: SBool}
 	case "hasSuffix":
@@ -678,6 +681,9 @@ func sortFromSexpr(s *sexpr) *Sort {
 			return SReal
 		case "Any":
 			return SAny
+		}
+		if strings.HasPrefix(s.atom, "Sq_") {
+			return SSeq(sortFromSexpr(&sexpr{atom: s.atom[3:]}))
 		}
 		if strings.HasPrefix(s.atom, "D_") {
 			return &Sort{K: KData, Name: s.atom[2:]}
